@@ -1,8 +1,10 @@
 package procs
 
 import (
+	"bytes"
 	"encoding/json"
 	"fmt"
+	"net/http/httptest"
 	"os"
 	"sort"
 	"strings"
@@ -40,7 +42,7 @@ func genLevelValue(t *rapid.T, level string) string {
 
 // TestC18: environment and job variables reach exactly the right task commands.
 func TestC18(t *testing.T) {
-	col := ev.Get("C18", "env", "1-3 pipelines x 1-3 tasks with real processes: each of 6 variable names is assigned to a generated subset of {prunner process, pipeline, task} with distinct values containing spaces, quotes, newlines, $, =, backticks, non-ASCII and the empty string; 2-5 jobs run concurrently, each with its own variables (strings - also with & < > \" + $ ; and URL-like values -, numbers, booleans, nested maps); every task runs 'vhelper dumpenv' (a real child process), 'vhelper args \"${NAME-<unset>}\"...' (interpreter expansion) and 'vhelper args {{ .var }}...' (template); oracle per name: child value = task value if defined, else pipeline value, else process value, else unset, byte for byte; TASK_NAME = task name; the rendered script shows exactly its own job's variables; a job scheduled with the reserved variable name runs nothing, ends canceled with an error and leaves the job it named unchanged; non-trivial = a name defined at >=2 levels with a shell-special value and >=2 jobs overlapping; distinct by assignment")
+	col := ev.Get("C18", "env", "1-3 pipelines (concurrency 1 or 3, so that jobs also wait while later requests arrive) x 1-3 tasks with real processes; the jobs of a case are scheduled by ScheduleAsync or, in half of the cases, over the HTTP API; each of 6 variable names is assigned to a generated subset of {prunner process, pipeline, task} with distinct values containing spaces, quotes, newlines, $, =, backticks, non-ASCII and the empty string; 2-5 jobs run concurrently, each with its own variables (strings - also with & < > \" + $ ; and URL-like values -, numbers, booleans, nested maps); every task runs 'vhelper dumpenv' (a real child process), 'vhelper args \"${NAME-<unset>}\"...' (interpreter expansion) and 'vhelper args {{ .var }}...' (template); oracle per name: child value = task value if defined, else pipeline value, else process value, else unset, byte for byte; TASK_NAME = task name; the rendered script shows exactly its own job's variables; a job scheduled with the reserved variable name runs nothing, ends canceled with an error and leaves the job it named unchanged; non-trivial = a name defined at >=2 levels with a shell-special value and >=2 jobs overlapping; distinct by assignment")
 	vh := helper(t)
 	rapid.Check(t, func(rt *rapid.T) {
 		c := envCase{proc: map[string]string{}, pipes: map[string]map[string]string{}, tasks: map[string]map[string]map[string]string{}}
@@ -57,7 +59,8 @@ func TestC18(t *testing.T) {
 			c.pipes[pn] = map[string]string{}
 			c.tasks[pn] = map[string]map[string]string{}
 			nT := rapid.IntRange(1, 3).Draw(rt, "nTasks")
-			pd := definition.PipelineDef{Concurrency: 3, Tasks: map[string]definition.TaskDef{}, SourcePath: "gen"}
+			// (concurrency 1: later jobs of the pipeline wait while further requests come in)
+			pd := definition.PipelineDef{Concurrency: rapid.SampledFrom([]int{1, 3}).Draw(rt, "concurrency"), Tasks: map[string]definition.TaskDef{}, SourcePath: "gen"}
 			for ti := 0; ti < nT; ti++ {
 				tn := fmt.Sprintf("t%d", ti)
 				c.tasks[pn][tn] = map[string]string{}
@@ -124,6 +127,7 @@ func TestC18(t *testing.T) {
 			vars map[string]interface{}
 		}
 		nJobs := rapid.IntRange(2, 5).Draw(rt, "nJobs")
+		viaHTTP := rapid.Bool().Draw(rt, "viaHTTP")
 		var jobs []jobRec
 		for i := 0; i < nJobs; i++ {
 			pn := fmt.Sprintf("p%d", rapid.IntRange(0, nP-1).Draw(rt, "jobPipeline"))
@@ -135,11 +139,28 @@ func TestC18(t *testing.T) {
 				"flag":   rapid.Bool().Draw(rt, "flag"),
 				"nested": map[string]interface{}{"k": fmt.Sprintf("nk%d", i)},
 			}
-			j, err := w.pr.ScheduleAsync(pn, prunner.ScheduleOpts{Variables: vars})
-			if err != nil {
-				rt.Fatalf("schedule: %v", err)
+			var id uuid.UUID
+			if viaHTTP {
+				body, _ := json.Marshal(map[string]interface{}{"pipeline": pn, "variables": vars})
+				req := httptest.NewRequest("POST", "/pipelines/schedule", bytes.NewReader(body))
+				req.Header.Set("Authorization", "Bearer "+w.token)
+				rec := httptest.NewRecorder()
+				w.handler.ServeHTTP(rec, req)
+				var out struct {
+					JobID string `json:"jobId"`
+				}
+				if rec.Code != 202 || json.Unmarshal(rec.Body.Bytes(), &out) != nil {
+					rt.Fatalf("POST /pipelines/schedule -> %d %s", rec.Code, clipS(rec.Body.String()))
+				}
+				id = uuid.FromStringOrNil(out.JobID)
+			} else {
+				j, err := w.pr.ScheduleAsync(pn, prunner.ScheduleOpts{Variables: vars})
+				if err != nil {
+					rt.Fatalf("schedule: %v", err)
+				}
+				id = j.ID
 			}
-			jobs = append(jobs, jobRec{j.ID, pn, vars})
+			jobs = append(jobs, jobRec{id, pn, vars})
 		}
 		// a job that tries to claim the identity of another job
 		reserved := rapid.Bool().Draw(rt, "reservedJob")
@@ -246,7 +267,7 @@ func TestC18(t *testing.T) {
 			}
 		}
 		col.Add(fmt.Sprintf("%v|%v|%v|%d", c.proc, c.pipes, c.tasks, nJobs), multiLevel && special && nJobs >= 2,
-			map[string]int{"name-at>=2-levels": btoi(multiLevel), "special-value-overridden": btoi(special), "reserved-variable-job": btoi(reserved), "pipelines>=2": btoi(nP >= 2)}, nJobs,
+			map[string]int{"name-at>=2-levels": btoi(multiLevel), "special-value-overridden": btoi(special), "reserved-variable-job": btoi(reserved), "pipelines>=2": btoi(nP >= 2), "scheduled-over-http": btoi(viaHTTP)}, nJobs,
 			map[string]interface{}{"process": c.proc, "pipelines": c.pipes, "tasks": c.tasks, "jobs": nJobs, "reserved_job": reserved})
 	})
 }
